@@ -79,10 +79,68 @@ def check_lines(tree, text):
     return None
 
 
+TYPED_MASTER = """c = a *b c
+  .type = choice
+mm = a b c d
+  .type = choice(multi=True)
+s {
+  c = lo *hi mid
+    .type = choice
+}
+"""
+
+
+def typed_value_faults(ctx, rng, rounds):
+    """errors raised while MERGING a value (choice alternatives) cite the line of the offending word, also when the value
+    runs over several lines (backslash continuation, quoted words on following lines) and follows blank lines/comments"""
+    import re
+    master = freephil.parse(input_string=TYPED_MASTER)
+    for _ in range(rounds):
+        name, alts = rng.choice([("c", ["a", "b", "c"]), ("mm", ["a", "b", "c", "d"]), ("s.c", ["lo", "hi", "mid"])])
+        words = [("*" if rng.random() < 0.6 else "") + rng.choice(alts) for _ in range(rng.randint(1, 5))]
+        bad_at = rng.randrange(len(words))
+        bad = rng.choice(["zzz", "q", "A_"])
+        words[bad_at] = "*" + bad
+        quoted = rng.random() < 0.3
+        pre = "".join(rng.choice(["\n", "# note\n", "x_unrelated = 1\n"]) for _ in range(rng.randint(0, 3)))
+        line = 1 + pre.count("\n")
+        text = pre + name + " ="
+        bad_line = None
+        for j, w in enumerate(words):
+            if j > 0 and rng.random() < 0.5:
+                if quoted:
+                    text += "\n   "
+                else:
+                    text += " \\\n   "
+                line += 1
+            text += " " + ('"%s"' % w if quoted else w)
+            if j == bad_at:
+                bad_line = line
+        text += "\n"
+        ctx.case(("typed_fault", text), nontrivial=text.count("\n") > 1)
+        ctx.count("typed_value_faults")
+        try:
+            master.fetch(source=freephil.parse(input_string=text))
+            ctx.fail({"master": TYPED_MASTER, "text": text}, "an unknown starred alternative was accepted")
+            continue
+        except freephil.Sorry as e:
+            msg = str(e)
+        except BaseException as e:
+            ctx.fail({"master": TYPED_MASTER, "text": text}, "merge raised %s: %s" % (type(e).__name__, str(e)[:80]))
+            continue
+        mm = re.search(r"\(input line (\d+)\)", msg)
+        if not msg.startswith("Not a possible choice for %s: %s" % (name, bad)) or mm is None:
+            ctx.fail({"master": TYPED_MASTER, "text": text}, "unexpected refusal: %s" % msg[:100])
+        elif int(mm.group(1)) != bad_line:
+            ctx.fail({"master": TYPED_MASTER, "text": text},
+                     "the refused alternative %r stands on line %d, the message cites line %s" % (bad, bad_line, mm.group(1)))
+
+
 def run(ctx):
     rng = ctx.rng
     n = ctx.scale(1500, 40000, 8000)
     cases, reqs, impls = [], [], []
+    typed_value_faults(ctx, rng, ctx.scale(300, 6000, 1200))
     for i in range(n):
         if ctx.time_left() < 25:
             ctx.notes.append("stopped early on time budget")
